@@ -138,7 +138,11 @@ Leave1(h, rs) ==
            /\ H' = [x \in Handles |->
                       IF x = h THEN [r EXCEPT !.inb = FALSE, !.dirty = FALSE, !.stale = FALSE, !.tail = "nl"]
                       ELSE IF H[x].live /\ H[x].d = d /\ H[x].f = f THEN [H[x] EXCEPT !.stale = TRUE] ELSE H[x]]
-      ELSE /\ H' = [H EXCEPT ![h].inb = FALSE] /\ UNCHANGED <<doc, unk>>
+      ELSE \* nothing is written.  (A refusal for an EMPTY list may come after the final newline was already
+           \* appended to the token list -- separators only, formatter fails: the tail is then not known.)
+           /\ H' = [H EXCEPT ![h].inb = FALSE,
+                             ![h].tail = IF rs = "ValueError" /\ r.el = <<>> /\ @ = "none" THEN "any" ELSE @]
+           /\ UNCHANGED <<doc, unk>>
    /\ res' = rs /\ got' = <<>> /\ UNCHANGED held /\ Note(h, "leave")
 \* the with-block is left by an exception (or __exit__ is called with one): nothing is written, the object keeps
 \* its edits and stays dirty
